@@ -43,6 +43,26 @@ let impl (fn : string) (a : string array) : string option =
   | "Cut" ->
     let f r = res_map (fun ((b, af), fl) -> sslice b ^ ":" ^ sslice af ^ ":" ^ sbool fl) r in
     Some (both (f (i_cut_str (s 0) (s 1))) (f (i_cut_byt (s 0) (s 1))))
+  | "IndexByte" -> Some (both (res_z (i_IndexByte_a (s 0) (n 1))) (res_z (i_IndexByte_c (s 0) (n 1))))
+  | "IndexByteASCII" -> Some (res_z (i_IndexByteASCII (s 0) (n 1)))
+  | "LastIndexByte" -> Some (res_z (i_LastIndexByte (s 0) (n 1)))
+  | "IndexRune" -> Some (both (res_z (i_IndexRune_a (s 0) (n 1))) (res_z (i_IndexRune_c (s 0) (n 1))))
+  | "ContainsRune" ->
+    let f r = res_map (fun v -> sbool (int_of_z v >= 0)) r in
+    Some (both (f (i_IndexRune_a (s 0) (n 1))) (f (i_IndexRune_c (s 0) (n 1))))
+  | "i.indexRuneCase" ->
+    let r = both (both (res_z (i_index_rune_case_a (s 0) (n 1))) (res_z (i_index_rune_case_b (s 0) (n 1)))) (res_z (i_index_rune_case_c (s 0) (n 1))) in
+    Some (r ^ "|" ^ r)
+  | "i.indexRune" ->
+    let f r = res_map (fun (i, sz) -> if int_of_z i < 0 then "-1:1" else string_of_int (int_of_z i) ^ ":" ^ string_of_int (int_of_z sz)) r in
+    let r = both (f (i_index_rune_pair_a (s 0) (n 1))) (f (i_index_rune_pair_c (s 0) (n 1))) in
+    Some (r ^ "|" ^ r)
+  | "i.indexByte" ->
+    let f r = res_map (fun (i, sz) -> if int_of_z i < 0 then "-1:1" else string_of_int (int_of_z i) ^ ":" ^ string_of_int (int_of_z sz)) r in
+    let r = both (f (i_index_byte_pair_a (s 0) (n 1))) (f (i_index_byte_pair_c (s 0) (n 1))) in
+    Some (r ^ "|" ^ r)
+  | "i.lastIndexRune" ->
+    Some (res_z (i_last_index_rune_str (s 0) (n 1)) ^ "|" ^ res_z (i_last_index_rune_byt (s 0) (n 1)))
   (* unexported strategies (hooks under verif_internals): "str-result|byt-result" *)
   | "i.hasPrefixUnicode" ->
     let f r = res_map (fun (m, e) -> sbool m ^ ":" ^ sbool e) r in
